@@ -1,7 +1,7 @@
 """C09 - allocators (structural clauses)."""
 import re
 
-from gsa.cfg import Fn, S, canon, is_call, is_assign, walk, lit
+from gsa.cfg import Fn, S, canon, is_call, is_assign, walk, lit, SN
 from gsa import lock as L
 from gsa.layout import Poly, Interp
 from gsa import rules as R
@@ -404,7 +404,8 @@ def siblings(ctx, fx):
         pb = [e for _, e in fn.events(is_call(name="push_back"))]
         ok = len(pb) == 1 and "pow2(i)" in S(pb[0])
         loops = [b for b in fn.blocks.values() if (b.get("term") or {}).get("cls") in ("ForStmt", "WhileStmt")]
-        ok = ok and len(loops) == 1 and (loops[0]["term"].get("text") or "").replace(" ", "") in ("i<=LOG2_MAX_SIZE", "i<=Pow_2_BlockHeap::LOG2_MAX_SIZE")
+        ok = ok and len(loops) == 1 and bool(loops[0]["term"].get("cond")) and bool(re.fullmatch(
+            r"\(i <= (\w+::)*LOG2_MAX_SIZE\)", SN(lit(loops[0]["term"]["cond"])[0])))      # `LOG2_MAX_SIZE >= i` is the same
         ctx.ob("C09.sibling.size-class", f["qn"], ok, "heap table does not hold one heap of size 2^i for every i <= LOG2_MAX_SIZE",
                fn.loc(), "table", fnkey=f["key"])
     PB = SUB + "PerBackend::"
